@@ -16,13 +16,14 @@ import (
 
 // A hostile stream: a well-formed prefix, one hostile blob, a canary.
 type c06Stream struct {
-	Prefix   int    `json:"prefix"`    // number of well-formed PUBLISH packets before (alternating q0/q1)
-	Blob     string `json:"blob"`      // hex of the hostile bytes
-	Class    string `json:"class"`     // generator's label
-	Listed   bool   `json:"listed"`    // class is in the property's list: the link must end with an error
-	Truncate bool   `json:"truncate"`  // the blob is an incomplete packet followed by the peer closing
-	LenBytes int    `json:"len_bytes"` // for over-long length fields: only this many bytes of the blob may be consumed
-	Chunk    int    `json:"chunk"`
+	Prefix    int    `json:"prefix"`    // number of well-formed PUBLISH packets before (alternating q0/q1)
+	Blob      string `json:"blob"`      // hex of the hostile bytes
+	Class     string `json:"class"`     // generator's label
+	Listed    bool   `json:"listed"`    // class is in the property's list: the link must end with an error
+	Truncate  bool   `json:"truncate"`  // the blob is an incomplete packet followed by the peer closing
+	LenBytes  int    `json:"len_bytes"` // for over-long length fields: only this many bytes of the blob may be consumed
+	Chunk     int    `json:"chunk"`
+	PingFirst bool   `json:"ping_first,omitempty"` // a Ping is completed first (the client then has a place to put PINGRESPs)
 }
 
 type c06Params struct {
@@ -144,6 +145,19 @@ func structuralStreams() []c06Stream {
 		}
 		add(e, fmt.Sprintf("length-field-endless-type%x", first>>4), true, c06Stream{LenBytes: 4})
 	}
+	// well-formed oddities the parsers accept: they must not bring the handler chain down
+	add([]byte{0x30, 0x03, 0x00, 0x00, 'p'}, "publish-zero-length-topic-q0", false, c06Stream{})
+	add([]byte{0x32, 0x05, 0x00, 0x00, 0x00, 0x09, 'p'}, "publish-zero-length-topic-q1", false, c06Stream{})
+	add([]byte{0x30, 0x02, 0x00, 0x00}, "publish-zero-length-topic-empty-payload", false, c06Stream{})
+	// surplus PINGRESPs (nobody is pinging any more), then a malformed packet: it must still end the link
+	for n := 1; n <= 4; n++ {
+		var b []byte
+		for i := 0; i < n; i++ {
+			b = append(b, 0xD0, 0x00)
+		}
+		add(append(b, 0xF0, 0x00), fmt.Sprintf("surplus-pingresp-x%d-then-reserved-type", n), true, c06Stream{PingFirst: true})
+		add(append(append([]byte{}, b...), 0x30, 0x03, 0x00, 0x01), fmt.Sprintf("surplus-pingresp-x%d-then-short-publish", n), false, c06Stream{PingFirst: n%2 == 0})
+	}
 	// truncation at every byte offset of well-formed packets, then the peer closes
 	wf := [][]byte{
 		mqttref.EncPublish("tr/x", []byte("payload"), 1, false, false, 7),
@@ -224,12 +238,31 @@ func c06RunStream(s c06Stream) (sig, detail string, trace []string, obs string) 
 	conn.Chunk = s.Chunk
 	conn.LateWriteOK = s.Truncate // acknowledgements of the prefix written after the peer closed are discarded, not failed
 	var handed []string
-	cli.Handle(mqtt.HandlerFunc(func(m *mqtt.Message) {
+	rec := mqtt.HandlerFunc(func(m *mqtt.Message) {
 		tr.Add(memnet.Event{Kind: memnet.KHEnter, Conn: conn.ID, S: m.Topic})
 		handed = append(handed, m.Topic)
-	}))
+	})
+	if len(blob)%2 == 0 {
+		// half of the streams go through a ServeMux: whatever topic the parser lets through is matched against
+		// wildcard filters as well
+		mux := &mqtt.ServeMux{}
+		mux.Handle("#", rec)
+		for _, f := range []string{"+/+/zz", "a/#", "+", "+/#"} {
+			mux.Handle(f, mqtt.HandlerFunc(func(*mqtt.Message) {}))
+		}
+		cli.Handle(mux)
+	} else {
+		cli.Handle(rec)
+	}
 	if err := scen.ConnectBase(cli); err != nil {
 		return "harness", "connect: " + err.Error(), tr.Dump(0), ""
+	}
+	if s.PingFirst {
+		peer.AutoPing = true
+		if err := scen.Barrier(cli); err != nil {
+			return "harness", "ping: " + err.Error(), tr.Dump(0), ""
+		}
+		peer.AutoPing = false
 	}
 	fail := func(sg, f string, a ...interface{}) (string, string, []string, string) {
 		cli.Close()
@@ -260,6 +293,10 @@ func c06RunStream(s c06Stream) (sig, detail string, trace []string, obs string) 
 		return conn.LocalClosed || (conn.Parked && conn.BufferedLocked() == 0)
 	})
 	if !settled {
+		if scen.CertifyStuck(tr, conn) {
+			// input is waiting, the connection is open, and nothing moves: the reader has stopped reading
+			return fail("reader-stopped-reading", "the client neither closed the connection nor went on reading: %d byte(s) of input are left unread and nothing moves", func() int { tr.Mu.Lock(); defer tr.Mu.Unlock(); return conn.BufferedLocked() }())
+		}
 		cli.Close()
 		return "inconclusive", "neither closed nor parked within the watchdog", tr.Dump(40), ""
 	}
